@@ -28,6 +28,7 @@ STRS = ["b", "a", "dd", "c", "ab"]
 MIXED = ["12", 2, "a", 1.5, "b"]
 INTS = [3, 1, 20, 10, 2]     # keys that become positional when spread
 PATS = ["b", ("pat", "a"), "c", ("pat", "d"), 1]   # patterns next to strings
+ODD = [None, True, [1], 3, False]     # NULL, booleans and a list next to ints
 EXTRA = ["e", "a"]           # strings used by the paths themselves
 
 G = "do def r = []; def g(x) do append(r, x); x end; "
@@ -69,7 +70,6 @@ PATHS = {
     "in_set": "s in <<t, s>>", "length": "length(s)",
     "choice": "do set_seed(3); choice(list(s)) end",
     "sample": "do set_seed(5); sample(list(s), 2) end",
-    "shuffle": "do set_seed(7); shuffle(list(s)) end",
     # the seeded generator: every seed, also the ones whose internal state
     # passes through zero, gives one fixed sequence
     # values that render alike (ties of the sort order): the enumeration
@@ -146,7 +146,7 @@ MAP_PATHS = {
     "mc_effect_values": G + "def q = <<<v => g(v) for v in values m>>>; length(r) end",
     "sc_error": "<<int(k) for k in keys m>>",
 }
-PRELUDE = ("def fargs(args...) args; "
+PRELUDE = ("def fargs(args...) args...; "
            "def fkw(a = 'A', b = 'B', c = 'C', dd = 'D', r...) [a, b, c, dd, r...];")
 
 TABLE = {}
@@ -176,12 +176,19 @@ def build_set(V, elems):
 def build_map(V, elems):
     m = V.ValueMap()
     for i, e in enumerate(elems):
-        m.addItem(core.to_value(e), V.ValueInt(STRS_RANK.get(e, 9)))
+        m.addItem(core.to_value(e), V.ValueInt(rank(e)))
     return m
 
 
 STRS_RANK = {"a": 1, "b": 2, "c": 1, "dd": 3, 2: 2, 1.5: 1, "ab": 2,
              "12": 3, 3: 33, 1: 11, 20: 55, 10: 44}
+
+def rank(e):
+    try:
+        return STRS_RANK.get(e, 9)
+    except TypeError:         # unhashable pool element (a list)
+        return 7
+
 
 _F = {}
 
@@ -256,6 +263,8 @@ def explore(chunk):
             base = INTS[:n]
         if kind in ("sp", "mp"):
             base = PATS[:n]
+        if kind in ("so", "mo"):
+            base = ODD[:n]
         strs = [x for x in base if isinstance(x, str)] + EXTRA[:1]
         outcomes = {}
         first = None
@@ -369,17 +378,17 @@ def program_texts(calls, n):
     for cname, order in (("fwd", lambda x: list(x)),
                          ("rev", lambda x: list(reversed(x)))):
         for pool, tag in ((STRS[:n], ""), (MIXED[:n], "x"),
-                          (INTS[:n], "i"), (PATS[:n], "p")):
+                          (INTS[:n], "i"), (PATS[:n], "p"), (ODD[:n], "o")):
             els = order(pool)
             sset = "<< " + ", ".join(literal(e) for e in els) + " >>"
             tel = list(pool[:-1]) + ["e"]
             tset = "<< " + ", ".join(literal(e) for e in order(tel)) \
                 + " >>"
             mmap = "<<< " + ", ".join(
-                literal(e) + " => " + str(STRS_RANK.get(e, 9))
+                literal(e) + " => " + str(rank(e))
                 for e in els) + " >>>"
             m2 = "<<< " + ", ".join(
-                literal(e) + " => " + str(STRS_RANK.get(e, 9))
+                literal(e) + " => " + str(rank(e))
                 for e in reversed(els)) + " >>>"
             head = (PRELUDE + f" def s = {sset}; def t = {tset}; "
                     f"def m = {mmap}; def m2 = {m2}; ")
@@ -493,6 +502,7 @@ def main(tier, seed):
             [("m", k) for k in MAP_PATHS] + [("mx", k) for k in MAP_PATHS] + \
             [("si", k) for k in PATHS] + [("mi", k) for k in MAP_PATHS] + \
             [("sp", k) for k in PATHS] + [("mp", k) for k in MAP_PATHS] + \
+            [("so", k) for k in PATHS] + [("mo", k) for k in MAP_PATHS] + \
             [("call", k) for k in calls]
     agg = core.pmap(explore, [{"paths": c, "n": n, "calls": calls}
                               for c in core.chunked(paths, core.NPROC * 4)])
@@ -507,7 +517,7 @@ def main(tier, seed):
         PID, tier, seed, agg, t0,
         rule=(f"{len(paths)} programs ({len(PATHS)} set paths and "
               f"{len(MAP_PATHS)} map paths x {{strings, mixed scalars, ints, patterns "
-              f"next to strings}}, "
+              f"next to strings, NULL/booleans/list next to ints}}, "
               f"{len(calls)} library calls discovered at run time) x every "
               f"permutation of the owned hash values of the program's "
               f"strings x every insertion order of {n} elements (thorough: 5 "
